@@ -624,7 +624,7 @@ Section ConnectorFacts.
     tls_connect b req conn =
       if name_ok b name
       then ([ETlsName name], if handshake_ok b conn name then TOk conn else TErrHandshake)
-      else ([], match b with Rustls => TErrInvalidInput | Openssl => TPanic end).
+      else ([], TErrInvalidInput).
   Proof. reflexivity. Qed.
 
   Lemma tls_name : forall b req conn evs r,
@@ -632,8 +632,7 @@ Section ConnectorFacts.
     (forall n, In (ETlsName n) evs -> n = hostname req /\ ~ In 58 n)
     /\ (forall s, r = TOk s <->
           s = conn /\ name_ok b (hostname req) = true /\ handshake_ok b conn (hostname req) = true)
-    /\ (name_ok b (hostname req) = false -> evs = []
-        /\ r = match b with Rustls => TErrInvalidInput | Openssl => TPanic end).
+    /\ (name_ok b (hostname req) = false -> evs = [] /\ r = TErrInvalidInput).
   Proof.
     intros b req conn evs r H. unfold Connect.tls_connect in H.
     destruct (name_ok b (hostname req)) eqn:N.
@@ -646,7 +645,7 @@ Section ConnectorFacts.
       + discriminate.
     - inversion H; subst. split; [|split].
       + intros n [].
-      + intros s. split; [destruct b; discriminate | intros [_ [E _]]; discriminate].
+      + intros s. split; [discriminate | intros [_ [E _]]; discriminate].
       + auto.
   Qed.
 
